@@ -173,6 +173,60 @@ fn ensure_total_coin_fits(values: &[primitives::Value]) -> Result<(), Error> {
     }
 }
 
+/// The amount of a native asset in an output is the sum of its entries: make
+/// sure it fits the ledger field, the aggregation would drop the entry otherwise.
+fn ensure_native_totals_fit(values: &[primitives::Value]) -> Result<(), Error> {
+    let mut totals: BTreeMap<(&primitives::Hash<28>, &[u8]), u128> = BTreeMap::new();
+
+    for value in values {
+        let primitives::Value::Multiasset(_, assets) = value else {
+            continue;
+        };
+
+        for (policy, names) in assets.iter() {
+            for (name, amount) in names.iter() {
+                let amount: u64 = (*amount).into();
+                *totals.entry((policy, name.as_slice())).or_default() += amount as u128;
+            }
+        }
+    }
+
+    if totals.values().any(|total| *total > u64::MAX as u128) {
+        return Err(Error::CoerceError(
+            "sum of native asset amounts".to_string(),
+            "u64".to_string(),
+        ));
+    }
+
+    Ok(())
+}
+
+/// The same for the mint field, whose amounts are signed 64-bit integers.
+fn ensure_mint_totals_fit(items: &[primitives::Multiasset<primitives::NonZeroInt>]) -> Result<(), Error> {
+    let mut totals: BTreeMap<(&primitives::Hash<28>, &[u8]), i128> = BTreeMap::new();
+
+    for assets in items {
+        for (policy, names) in assets.iter() {
+            for (name, amount) in names.iter() {
+                let amount: i64 = (*amount).into();
+                *totals.entry((policy, name.as_slice())).or_default() += amount as i128;
+            }
+        }
+    }
+
+    if totals
+        .values()
+        .any(|total| *total > i64::MAX as i128 || *total < i64::MIN as i128)
+    {
+        return Err(Error::CoerceError(
+            "sum of minted amounts".to_string(),
+            "i64".to_string(),
+        ));
+    }
+
+    Ok(())
+}
+
 fn compile_adhoc_script(
     adhoc: &tir::AdHocDirective,
 ) -> Result<primitives::ScriptRef<'static>, Error> {
@@ -233,6 +287,7 @@ fn compile_output_block(
         .collect::<Result<Vec<_>, _>>()?;
 
     ensure_total_coin_fits(&values)?;
+    ensure_native_totals_fit(&values)?;
 
     let value = asset_math::aggregate_values(values);
 
@@ -268,6 +323,7 @@ fn compile_mint_block(tx: &tir::Tx) -> Result<Option<primitives::Mint>, Error> {
         .map(|x| compile_native_asset_for_mint(x, false))
         .collect::<Result<Vec<_>, _>>()?;
 
+    ensure_mint_totals_fit(&mints)?;
     let mints = asset_math::aggregate_assets(mints);
 
     let burns = tx
@@ -280,10 +336,15 @@ fn compile_mint_block(tx: &tir::Tx) -> Result<Option<primitives::Mint>, Error> {
         .map(|x| compile_native_asset_for_mint(x, true))
         .collect::<Result<Vec<_>, _>>()?;
 
+    ensure_mint_totals_fit(&burns)?;
     let burns = asset_math::aggregate_assets(burns);
 
     let all = match (mints, burns) {
-        (Some(mints), Some(burns)) => asset_math::aggregate_assets([mints, burns]),
+        (Some(mints), Some(burns)) => {
+            let sides = [mints, burns];
+            ensure_mint_totals_fit(&sides)?;
+            asset_math::aggregate_assets(sides)
+        }
         (Some(mints), None) => Some(mints),
         (None, Some(burns)) => Some(burns),
         (None, None) => None,
@@ -365,6 +426,7 @@ pub fn compile_cardano_publish_directive(
         .map(compile_value)
         .collect::<Result<Vec<_>, _>>()?;
     ensure_total_coin_fits(&values)?;
+    ensure_native_totals_fit(&values)?;
     let value = asset_math::aggregate_values(values);
 
     let datum_option = adhoc.data.get("datum").map(compile_data_expr).transpose()?;
